@@ -411,7 +411,8 @@ theorem C18_template_output_cases (hole : HoleFn) (ps : List Piece) (hp : ∀ p 
 
 /-- **Templates whose text contains braces.**  The round trip and the produced text also when the
     copied text contains `{` (C / JSON / LaTeX templates): it suffices that every copied `{` is not
-    followed — after any blanks — by another `{` in the rendered rest (`PiecesOK`; a copied character
+    followed — after any blanks — by another `{`, nor directly by a malformed slice on which the slice
+    parser raises, in the rendered rest (`PiecesOK`; a copied character
     other than `{` is unconstrained, so this contains `C18_template` and `C18_template_output`).
     Not covered: a copied `{` followed by `{` that still fails to form a hole (`{{}`, `{{a}x`), which
     the code copies as well. -/
@@ -424,7 +425,8 @@ theorem C18_template_braces (hole : HoleFn) (ps : List Piece) (hp : PiecesOK ps)
   rw [h, assemble_eq]
 
 /-- **Text without holes is returned unchanged**: a text in which no `{` is followed (after blanks)
-    by another `{` is the result of solving it, whatever the environment. -/
+    by another `{` or directly by a malformed slice is the result of solving it, whatever the
+    environment. -/
 theorem C18_template_plain (hole : HoleFn) (s : List Char) (h : PlainOK s) :
     solveTemplate hole s = some s := by
   have := (C18_template_braces hole (s.map Piece.text) (plain_piecesOK s h)).2
